@@ -166,9 +166,10 @@ const (
 )
 
 type rfThread struct {
-	st  thrSt
-	n   int // events taken by batcher.Flush (at mid)
-	rel chan struct{}
+	st       thrSt
+	n        int // events taken by batcher.Flush (at mid)
+	rel      chan struct{}
+	returned bool // producer only: Add/Flush returned before the spawned fetch goroutine was seen
 }
 
 func (t *rfThread) inCritical() bool { return t.st == tMid || t.st == tPostMid || t.st == tCapWait }
@@ -276,7 +277,7 @@ func (s *rfSim) handle(ev rfEvent) {
 		// the flusher that was past the mid hook has reserved, unlocked and spawned this goroutine
 		for _, th := range []*rfThread{&s.p, &s.t} {
 			if th.st == tPostMid || th.st == tCapWait {
-				if th == &s.p {
+				if th == &s.p && !th.returned {
 					th.st = tRunning // still has to return from Add/Flush
 				} else {
 					th.st = tIdle
@@ -293,7 +294,11 @@ func (s *rfSim) handle(ev rfEvent) {
 			s.finning.drained = true
 		}
 	case "p.ret":
-		s.p.st = tIdle
+		if s.p.st == tPostMid || s.p.st == tCapWait {
+			s.p.returned = true // the fetch goroutine it spawned has not called fetchBatch yet
+		} else {
+			s.p.st = tIdle
+		}
 	}
 }
 
@@ -415,6 +420,7 @@ func (s *rfSim) snapshot() string {
 
 func (s *rfSim) startProducer(call func()) {
 	s.p.st = tRunning
+	s.p.returned = false
 	started := make(chan struct{})
 	go func() {
 		s.pGid.Store(curGid())
